@@ -929,6 +929,7 @@ def run_impl(case):
                              f"draw_space({cls} {_dims(sp)}, portrayal, propertylayer_portrayal) with no agents in the space raised {type(e).__name__}: {e}")
                         continue
                     raise
+                mutated(i, "collect")
                 view, how = _read_layer(ax, sp, cm, lo, hi, a4)
                 obs.append([0, sp["h"], sp["w"]] + view)
                 exp = [_shown(fam, cm, lo, hi, a4, ldata[x][y]) for y in range(sp["h"]) for x in range(sp["w"])]
@@ -1060,7 +1061,7 @@ def run_impl(case):
             import traceback
 
             obs.append([-1, 99])
-            fail(f"C20/{kind}/{fam}/unexpected-exception", i,
+            fail(f"C20/{kind}/unexpected-exception" if kind in ("check", "split", "creator") else f"C20/{kind}/{fam}/unexpected-exception", i,
                  f"{op} on {cls} {_dims(sp)} with agents {shadow} raised {type(e).__name__}: {e} :: {traceback.format_exc()[-600:]}")
     return {"obs": obs, "failures": failures, "model": not spring}
 
